@@ -111,15 +111,96 @@ def cheat_scenarios(viol, stats, samples):
             pr.destroy()
 
 
+def makeflags_level(ctx, rng, viol):
+    """The jobserver's wire format: `parse_makeflags` (hook verif_parse_makeflags) against `Makeflags.parse` on token
+    sequences around the two option spellings, and the value a real `redo -jN` exports to its scripts against
+    `Makeflags.format` (C08.roundtrip is about exactly that string)."""
+    import itertools
+    thorough = ctx["tier"] == "thorough"
+    toks = [" ", "--jobserver-auth=", "--jobserver-fds=", "3", "4", ",", "-", "+", "x", "-j", "12", "é"]
+    strs = ["".join(t) for n in range(0, 5 if thorough else 4) for t in itertools.product(toks[:8], repeat=n)]
+    extra = ["2147483647,2147483648", "-2147483648,007", "+5,+6", "3,4,5", "3, 4", ",", "3,", ",4", " 3,4", "99999999999,1", "--jobserver-auth", "=3,4", "３,4", "3\t,4"]
+    for _ in range(60000 if thorough else 6000):
+        k = rng.randint(1, 9)
+        strs.append("".join(rng.choice(toks + extra) for _ in range(k)))
+    # structured, mostly valid: [flags] option=INT,INT [flags], with a second option and small corruptions
+    def num():
+        r = rng.random()
+        if r < 0.6:
+            return str(rng.randint(0, 300))
+        if r < 0.75:
+            return rng.choice(["+", "-", "00", "-0"]) + str(rng.randint(0, 99))
+        if r < 0.9:
+            return str(rng.choice([2147483647, 2147483648, -2147483648, -2147483649, 4294967296, 10 ** 20]))
+        return rng.choice(["", "x", "3x", " 3", "3 ", "0x10", "1e3", "٣"])
+    def opt():
+        o = rng.choice(["--jobserver-auth=", "--jobserver-fds="]) + num() + rng.choice([",", ",", ",", ",", "", ";", ",,"]) + num()
+        return o if rng.random() < 0.9 else o.replace("--", "-", 1)
+    flagw = ["-j", "-k", "-j3", "--", "-w", "--no-print-directory", "k", "é=1", "--jobserver-auth", "--jobserver-fds"]
+    for _ in range(40000 if thorough else 4000):
+        parts = [rng.choice(flagw) for _ in range(rng.randint(0, 2))] + [opt()]
+        if rng.random() < 0.35:
+            parts += [rng.choice(flagw)] * rng.randint(0, 1) + [opt()]
+        parts += [rng.choice(flagw) for _ in range(rng.randint(0, 2))]
+        sep = rng.choice([" ", " ", " ", "  ", "\t"])
+        strs.append(rng.choice(["", " ", ""]) + sep.join(parts) + rng.choice(["", " ", ""]))
+    for e in extra:
+        strs += ["--jobserver-auth=" + e, "-j --jobserver-fds=" + e + " -k", "--jobserver-fds=1,2 --jobserver-auth=" + e]
+    strs = sorted(set(strs))
+    lines = ["makeflags " + hx(x) for x in strs]
+    diffs, m, impl = diff_lines(lines)
+    stats = dict(strings=len(lines), absent=sum(1 for a in m if a == "absent"), fds=sum(1 for a in m if a.startswith("fds")), invalid=sum(1 for a in m if a == "invalid"), exported=0)
+    if diffs:
+        l, a, b = min(diffs, key=lambda d: len(d[0]))
+        x = unhx(l.split()[1]).decode()
+        p = write_replay("C08", "makeflags-corr", dict(kind="model-vs-impl", layer="Makeflags.parse", MAKEFLAGS=x, model=a, impl=b, count=len(diffs)))
+        # failing input: what this redo itself would export must come back as the same descriptors
+        back = run_lines(RH, ["makeflags " + hx(" -j --jobserver-auth=%d,%d --jobserver-fds=%d,%d" % (r, w, r, w)) for r, w in ((3, 4), (100, 101), (7, 12))])
+        bad = [b2 for b2, want in zip(back, ("fds 3 4", "fds 100 101", "fds 7 12")) if b2 != want]
+        viol.append(Violation("C08", p, "MAKEFLAGS %r: model %s, implementation %s%s" % (x, a, b, "; a child of redo would not find its parent's jobserver: %s" % bad[0] if bad else ""), no_input=not bad))
+        return stats
+    # what a real top-level redo exports
+    pr = Project()
+    try:
+        pr.write("x.do", 'printf "%s" "$MAKEFLAGS" >mf\nredo-ifchange y\n')
+        pr.write("y.do", 'printf "%s" "$MAKEFLAGS" >mf2\n')
+        for j in (2, 5):
+            r = sched.run_cmds(pr, [["redo", "-j%d" % j, "x"]], timeout=30)[0]
+            mf, mf2 = (pr.read("mf") or b"").decode(), (pr.read("mf2") or b"").decode()
+            ans = run_lines(MODEL, ["makeflags " + hx(mf)])[0]
+            problems = []
+            if r.rc != 0:
+                problems.append("redo -j%d failed (%d)" % (j, r.rc))
+            if not ans.startswith("fds "):
+                problems.append("the exported MAKEFLAGS %r does not name a jobserver (model: %s)" % (mf, ans))
+            else:
+                a, b = ans.split()[1:]
+                fm = unhx(run_lines(MODEL, ["makeflags-format %s %s" % (a, b)])[0]).decode()
+                if fm != mf:
+                    problems.append("exported MAKEFLAGS %r, Makeflags.format gives %r" % (mf, fm))
+            if mf2 != mf:
+                problems.append("a nested redo-ifchange changed MAKEFLAGS: %r -> %r" % (mf, mf2))
+            stats["exported"] += 1
+            if problems:
+                p = write_replay("C08", "makeflags-export", dict(kind="model-vs-impl", layer="Makeflags.format", j=j, exported=mf, nested=mf2, problems=problems, stderr=r.err[-600:]))
+                viol.append(Violation("C08", p, "; ".join(problems)))
+                break
+    finally:
+        pr.destroy()
+    return stats
+
+
 def run(ctx):
     rng = random.Random(ctx["seed"] * 31 + 8)
     viol = ctx.setdefault("violations", [])
     thorough = ctx["tier"] == "thorough"
+    mfstats = makeflags_level(ctx, random.Random(ctx["seed"] * 77 + 8), viol)
     n = 120 if thorough else 26
     stats = dict(runs=0, events=0, groups=0, own=0, inherited=0, failing=0, with_log=0, max_overlap=0, cheats=0)
     samples = []
     known_hit = []
-    for i in range(n):
+    stats["makeflags"] = mfstats
+    for i in range(n if not viol else 0):
         kind = rng.choice(["plain", "plain", "fail", "features"])
         g = scenario(rng, kind, i)
         j = rng.choice([1, 2, 2, 3, 4])
@@ -201,5 +282,5 @@ def run(ctx):
     if not viol:
         cheat_scenarios(viol, stats, samples)
     return dict(evaluations=stats["events"], distinct_nontrivial=stats["runs"],
-                rule="two directed scenarios for the borrowed-token path (followed job waits for a locked target, wakes up with no token free, cheats; then exits with the loan / releases it again) under an inherited jobserver; seeded random build graphs (3-9 targets; chains, fans, diamonds, layers; failing, checksummed, always targets) built at -j1..4 with own or inherited (MAKEFLAGS) jobserver, with and without log capture, first build and rebuild; every primitive token event of every process is replayed by the Lean acceptor; distinct = runs",
+                rule="MAKEFLAGS strings (all sequences of up to 3 tokens over the option spellings, digits, signs, commas, blanks; seeded longer ones; i32 boundary values) through the real parser and the model, and the value a real redo -jN exports against Makeflags.format; two directed scenarios for the borrowed-token path (followed job waits for a locked target, wakes up with no token free, cheats; then exits with the loan / releases it again) under an inherited jobserver; seeded random build graphs (3-9 targets; chains, fans, diamonds, layers; failing, checksummed, always targets) built at -j1..4 with own or inherited (MAKEFLAGS) jobserver, with and without log capture, first build and rebuild; every primitive token event of every process is replayed by the Lean acceptor; distinct = runs",
                 samples=samples, traces_validated_against_impl=stats["groups"], disagreements_checked=stats["events"], distribution=stats, known_hit=known_hit)
